@@ -79,7 +79,8 @@ def mutants(ctx):
     return [
         # O2: the slot read in the predecessor's entry is the CONSUMER's flow index
         Mutant("lookup_slot_of_consumer_flow", J2C,
-               'spaces, pred_flow->flow_index,\n                spaces);', 'spaces, flow->flow_index,\n                spaces);',
+               'spaces, jdf_property_get_string(pred_f->properties, JDF_PROP_UD_MAKE_KEY_FN_NAME, NULL),\n                spaces,\n                spaces, pred_flow->flow_index,',
+               'spaces, jdf_property_get_string(pred_f->properties, JDF_PROP_UD_MAKE_KEY_FN_NAME, NULL),\n                spaces,\n                spaces, flow->flow_index,',
                queries=["lookup_grid_H_0", "lookup_grid_H_1"]),
         # O2: predecessor key built from the consumer's own locals
         Mutant("lookup_key_from_own_locals", J2C,
